@@ -191,6 +191,8 @@ pub fn execute(cfg: &ExecCfg, ch: &mut Chooser) -> MResult<ExecOut> {
     let mut out = ExecOut::default();
     let tree_dev = lstat(&cfg.root_out).ok_or_else(|| Mach("root vanished".into()))?.dev;
     out.ever_inside = walk_inodes(&cfg.root_out);
+    // everything that exists in the world before the operation starts: none of it can be "created by the library"
+    let preexisting = walk_inodes(&crate::sys::out("/w"));
     unsafe { libc::alarm(cfg.timeout_s) };
     let mut ts: Vec<Tracee> = Vec::new();
     for s in &cfg.specs { ts.push(Tracee::spawn(s)?); }
@@ -297,11 +299,12 @@ pub fn execute(cfg: &ExecCfg, ch: &mut Chooser) -> MResult<ExecOut> {
                     let creating = ev.name != "openat" || ev.flags.unwrap_or(0) & libc::O_CREAT as u64 != 0;
                     if let (true, Some(id), Some(fd), Some(name)) = (creating, &ev.fdid, ev.fd, &ev.path) {
                         if out.ever_inside.contains(&(id.dev, id.ino)) {
-                            let entry = lstat(&format!("/proc/{}/fd/{}/{}", ts[w].pid, fd, name));
+                            // '.' and '..' are not entries a call can create: they name the directory itself / its parent
+                            let entry = if name == "." || name == ".." { None } else { lstat(&format!("/proc/{}/fd/{}/{}", ts[w].pid, fd, name)).filter(|st| !preexisting.contains(&(st.dev, st.ino))) };
                             if let Some(st) = &entry { out.ever_inside.insert((st.dev, st.ino)); }
                             // the descriptor an O_CREAT open returns is that entry - unless the open followed a symlink (or O_PATH made
                             // the kernel ignore O_CREAT and follow one): then it is whatever the link pointed to, and is judged as such
-                            if let Some(r) = &ev.retid { if ev.name == "openat" && entry.as_ref().map(|st| (st.dev, st.ino) == (r.dev, r.ino)).unwrap_or(true) { out.ever_inside.insert((r.dev, r.ino)); } }
+                            if let Some(r) = &ev.retid { if ev.name == "openat" && !preexisting.contains(&(r.dev, r.ino)) && name != "." && name != ".." && entry.as_ref().map(|st| (st.dev, st.ino) == (r.dev, r.ino)).unwrap_or(true) { out.ever_inside.insert((r.dev, r.ino)); } }
                         }
                     }
                     out.ever_inside.extend(walk_inodes(&cfg.root_out));
